@@ -27,6 +27,7 @@ MIXES = {
     'one-input': [('Reservoir Temperature', 'uniform', 130, 170)],
     # Reservoir Porosity is limited to [0, 100]: about half of these iterations fail
     'half-fail': [('Reservoir Porosity', 'uniform', 50.0, 150.0), ('Reservoir Temperature', 'uniform', 130, 170)],
+    'past-limit-normal': [('Reservoir Porosity', 'normal', 97.0, 4.0), ('Reservoir Thickness', 'uniform', 0.122, 0.299)],
 }
 GEO_MIX = [('Gradient 1', 'uniform', 30, 60), ('Utilization Factor', 'uniform', 0.7, 0.95), ('Ambient Temperature', 'triangular', 15, 20, 25), ('Reservoir Heat Capacity', 'normal', 1000, 30)]
 GEO_OUTPUTS = ['Average Net Electricity Production', 'Electricity breakeven price', 'Total capital costs']
@@ -108,6 +109,24 @@ def analyse(chk: core.Check, r: dict, label: tuple):
                 ok = False
             if not ok:
                 chk.fail(f'C13/out-of-support/{spec[1]}', f'sampled value {v} for {name} is outside the support of {spec[1]}{tuple(spec[2:])}', {**rep, 'entries': e['entries']})
+    # a continuous distribution has no atoms: one value drawn twice for the same input means the values are not draws from it (e.g. clipped to a bound)
+    for i, spec in enumerate(inputs):
+        nondegenerate = (spec[1] == 'uniform' and float(spec[2]) < float(spec[3])) or (spec[1] in ('normal', 'lognormal') and float(spec[3]) > 0) or \
+                        (spec[1] == 'triangular' and float(spec[2]) < float(spec[4]))
+        if not nondegenerate:
+            continue
+        col = Counter(v[i] for v in vectors if i < len(v))
+        rep_ = [(x, c) for x, c in col.items() if c > 1]
+        # (replicated whole vectors are reported below as replicated draws; here: a single value that recurs while the other inputs differ)
+        if rep_ and len(inputs) > 1 and len(set(vectors)) == len(vectors):
+            x, c = max(rep_, key=lambda t: t[1])
+            chk.fail(f'C13/atom-in-continuous-input/{spec[1]}', f'{c} of {len(vectors)} iterations drew exactly {x} for {spec[0]}, requested as {spec[1]}{tuple(spec[2:])}: a continuous distribution '
+                     f'does not repeat a value — the samples are not draws from the requested distribution', {**rep, 'input': spec[0], 'value': x, 'times': c})
+        elif rep_ and len(inputs) == 1:
+            x, c = max(rep_, key=lambda t: t[1])
+            if c > 1 and fresh:
+                chk.fail(f'C13/atom-in-continuous-input/{spec[1]}', f'{c} of {len(vectors)} iterations drew exactly {x} for {spec[0]}, requested as {spec[1]}{tuple(spec[2:])}, from freshly seeded workers',
+                         {**rep, 'input': spec[0], 'value': x, 'times': c})
     continuous = [i for i, spec in enumerate(inputs) if spec[1] != 'binomial']
     cv = [tuple(v[i] for i in continuous) for v in vectors]
     if continuous:
@@ -129,9 +148,9 @@ def analyse(chk: core.Check, r: dict, label: tuple):
     if len(rows) != len(written):
         chk.fail('C13/rows-vs-successes', f'the result file has {len(rows)} rows but {len(written)} iterations completed their simulation and appended a row',
                  {**rep, 'rows': len(rows), 'rows_appended_by_workers': len(written)})
-    if job['mix'] != 'half-fail' and len(rows) != job['iterations']:
+    if job['mix'] not in ('half-fail', 'past-limit-normal') and len(rows) != job['iterations']:
         chk.fail('C13/rows-vs-iterations', f'every iteration is in range and simulates, but the file has {len(rows)} rows for {job["iterations"]} iterations', {**rep, 'rows': len(rows)})
-    if job['mix'] == 'half-fail':
+    if job['mix'] in ('half-fail', 'past-limit-normal'):
         # an iteration fails exactly when its porosity sample is > 100: rows must be exactly the others
         expect = sum(1 for v in vectors if float(v[0]) <= 100.0)
         if len(rows) != expect:
@@ -150,7 +169,7 @@ def run(chk: core.Check) -> int:
                      'settings': mc.settings_text(inputs, outputs, iterations)})
 
     plan = [('uniform5', 40, 16), ('uniform5', 7, 2), ('all-kinds', 40, 5), ('one-input', 24, 16), ('half-fail', 30, 5), ('uniform5', 1, 1), ('all-kinds', 9, 1),
-            ('half-fail', 160, 16)]   # >= 8 x CPUs iterations with failures: batching of tasks must not let a failure swallow its neighbours
+            ('half-fail', 160, 16), ('past-limit-normal', 40, 8)]   # >= 8 x CPUs iterations with failures: batching of tasks must not let a failure swallow its neighbours
     if not quick:
         plan += [('uniform5', 300, 16), ('all-kinds', 300, 16), ('half-fail', 120, 16), ('one-input', 100, 3), ('uniform5', 64, 2), ('all-kinds', 50, 2)]
     for mix, it, w in plan:
@@ -160,6 +179,14 @@ def run(chk: core.Check) -> int:
     res = mc.run_many(jobs, chk.scratch, parallel=2)
     for j, r in zip(jobs, res):
         analyse(chk, r, (j['program'], j['mix'], j['iterations'], j['workers']))
+    # a stale lock left in the results directory by an earlier (killed) run must cost nothing and duplicate nothing
+    jobs = []
+    add('HIP_RA_X', 'uniform5', MIXES['uniform5'], mc.HIP_OUTPUTS[:2], mc.HIP_BASE, 24, 4)
+    jobs[-1]['stale_lock'] = True
+    res = mc.run_many(jobs, chk.scratch, parallel=1)
+    for j, r in zip(jobs, res):
+        chk.tag('stale-lock-run')
+        analyse(chk, r, (j['program'], 'stale-lock', j['iterations']))
     # contention: short tasks, 16 workers per run, several runs at once — the appends collide (a lost or torn row shows here)
     jobs = []
     for k in range(6 if quick else 24):
